@@ -174,7 +174,11 @@ class InterpretedFunctionsRemover(engines.engine.Engine, CompilerMixin):
         problem_kind: ProblemKind, compilation_kind: Optional[CompilationKind] = None
     ) -> ProblemKind:
         assert isinstance(problem_kind, ProblemKind)
-        new_kind = problem_kind.clone()
+        # INT_TYPE_DURATIONS exists only from version 2 of the problem kind on:
+        # bring an older kind to the latest version before adding it
+        new_kind = problem_kind.union(
+            ProblemKind(version=LATEST_PROBLEM_KIND_VERSION)
+        )
         if new_kind.has_interpreted_functions_in_conditions():
             new_kind.unset_conditions_kind("INTERPRETED_FUNCTIONS_IN_CONDITIONS")
         if new_kind.has_interpreted_functions_in_durations():
